@@ -35,7 +35,7 @@ from pv.report import Result, finish
 from pv.tabulate import tabulate, variant_names, strip_adt
 from pv.mir import sym_str, sym_walk
 from pv.facts import VERIF
-from pv import finite
+from pv import finite, flow
 from pv import x_plutus as X
 from pv.x_plutus import strip_generics
 
@@ -308,8 +308,14 @@ def flag_table(P, key, depth=3):
         for r in rets:
             r = X.strip(r)
             if comp is not None:
-                if r[0] == "agg" and r[3] is not None and str(comp).isdigit() and int(comp) < len(r[3]):
-                    r = X.strip(r[3][int(comp)])
+                idx = int(comp) if str(comp).isdigit() else None
+                if idx is None and r[0] == "agg" and isinstance(r[1], str):
+                    a_ = P.adt(strip_adt(r[1]))        # struct result: field name -> position
+                    if a_ is not None:
+                        nm = [fl["name"] for fl in a_["variants"][0]["fields"]]
+                        idx = nm.index(str(comp)) if str(comp) in nm else None
+                if r[0] == "agg" and r[3] is not None and idx is not None and idx < len(r[3]):
+                    r = X.strip(r[3][idx])
                 else:
                     r = ("field", r, comp)
             if r[0] == "const":
@@ -487,13 +493,28 @@ def decoder_tag_subject(s):
 def unanalysable(res, prefix, f, uneval):
     """Fail closed when a condition on the table's subject (tag / length) is outside the finite fragment."""
     if uneval:
+        res.__dict__.setdefault("undecidable", set()).add(prefix)
         res.violation("%s:unanalysable" % prefix, "a condition on the table's subject cannot be evaluated over the finite domain (%s): the table is not decidable "
                       "(accepted: comparisons, range patterns, masks, `(a..=b).contains(&x)`, minicbor Tag helpers)" % sorted(uneval)[0], where=X.where(f), rule="R-TABLE")
+
+
+@X.memo_pred
+def is_datatype(s):
+    """The head type read from the decoder: built only from the result of Decoder::datatype (through `?`/unwrap)."""
+    cs = [sub for sub in sym_walk(s) if sub[0] == "call"]
+    names = [strip_generics(c[1]) for c in cs]
+    if not any(re.search(r"minicbor::decode::decoder::(Decoder|Probe)::datatype$", n) for n in names):
+        return False
+    return all(re.search(r"(Decoder|Probe)::(datatype|probe)$|Try::branch$|Result::(unwrap|expect)$|DerefMut::deref_mut$|Deref::deref$", n) for n in names)
 
 
 def codec_clauses(P, res, spec):
     iana = spec["iana_tags"]
     tix = spec["minicbor_type_index"]
+    rcv = X.range_const_value(P)
+
+    def mk_leaf(is_subject, t, rng, ecs, didx=None):
+        return X.tag_leaf(is_subject, t, iana, rng, P, (is_datatype, didx) if didx is not None else None, ecs, tix)
     compact = spec["constr_compact"]
     general = spec["constr_general_tag"]
     spec_tags = {general}
@@ -512,14 +533,15 @@ def codec_clauses(P, res, spec):
     is_tag_field = X.field_root(1, ["tag"])
     paths = tabulate(f, P, 1024)
     dom, bad_val, n = set(), [], 0
-    rng, uneval = X.promoted_ranges(f), set()
+    rng, ecs, uneval = X.promoted_ranges(f, rcv), X.promoted_enum_consts(f, "minicbor::data::Type"), set()
     for t in TAG_DOMAIN:
-        leaf = X.tag_leaf(is_tag_field, t, iana, rng)
+        leaf = mk_leaf(is_tag_field, t, rng, ecs)
         rows = X.rows_for(paths, leaf, unevaluable=uneval, is_subject=is_tag_field)
-        if rows and all(p.end == "return" for p in rows):
+        # defined on t = some path returns (a panic for a missing any_constructor on the general tag is a malformed value, not the tag)
+        if any(p.end == "return" for p in rows):
             dom.add(t)
             n += 1
-            for p in rows:
+            for p in [q for q in rows if q.end == "return"]:
                 if t == general:
                     src = X.strip(p.ret)
                     if not (X.roots(src) == {1} and X.mentions_field(src, "any_constructor") and not X.mentions_field(src, "tag")):
@@ -547,9 +569,9 @@ def codec_clauses(P, res, spec):
     f = one_impl(P, "Constr", "minicbor::decode::Decode", "decode")
     paths = [p for p in tabulate(f, P, 4096) if p.end == "return" and not X.is_error_propagation(p)]
     acc, general_read, prov_bad = set(), set(), []
-    rng, uneval = X.promoted_ranges(f), set()
+    rng, ecs, uneval = X.promoted_ranges(f, rcv), X.promoted_enum_consts(f, "minicbor::data::Type"), set()
     for t in TAG_DOMAIN:
-        leaf = X.tag_leaf(decoder_tag_subject, t, iana, rng)
+        leaf = mk_leaf(decoder_tag_subject, t, rng, ecs, tix["Tag"])
         for p in X.rows_for(paths, leaf, unevaluable=uneval, is_subject=decoder_tag_subject):
             rc = X.result_class(p.ret)
             if rc and rc[0] == "ok":
@@ -587,9 +609,9 @@ def codec_clauses(P, res, spec):
     paths = [p for p in tabulate(f, P, 1024) if p.end == "return" and not X.is_error_propagation(p)]
     is_enc = lambda s: X.strip(s) == ("param", 2, "e") or (X.strip(s)[0] == "param" and X.strip(s)[1] == 2)
     general_written, tag_bad = set(), []
-    rng, uneval = X.promoted_ranges(f), set()
+    rng, ecs, uneval = X.promoted_ranges(f, rcv), X.promoted_enum_consts(f, "minicbor::data::Type"), set()
     for t in sorted(spec_tags):
-        leaf = X.tag_leaf(is_tag_field, t, iana, rng)
+        leaf = mk_leaf(is_tag_field, t, rng, ecs)
         for p in X.rows_for(paths, leaf, unevaluable=uneval, is_subject=is_tag_field):
             em = X.emissions(p, is_enc)
             tags = [e for e in em if e[0].endswith("Encoder::tag")]
@@ -622,17 +644,35 @@ def codec_clauses(P, res, spec):
     # ---- PlutusData::decode: head table and tag routing
     f = one_impl(P, "PlutusData", "minicbor::decode::Decode", "decode")
     paths = [p for p in tabulate(f, P, 8192) if not X.is_error_propagation(p)]
-    rng, uneval = X.promoted_ranges(f), set()
+    rng, ecs, uneval = X.promoted_ranges(f, rcv), X.promoted_enum_consts(f, "minicbor::data::Type"), set()
 
     def datatype_cond(cond, want):
         d, c = cond[0], cond[1]
-        if d[0] == "discr" and X.mentions_call(d[1], r"Decoder::datatype$") and strip_adt((d[2] if len(d) > 2 else "") or "") == "minicbor::data::Type":
+        if d[0] == "discr" and is_datatype(X.strip(d[1])) and strip_adt((d[2] if len(d) > 2 else "") or "") == "minicbor::data::Type":
             return (int(c[1]) == want) if c[0] == "eq" else (want not in [int(v) for v in c[1]])
         return None
 
-    def outcome(rows):
+    hp_cache = {}
+    hc_cache = {}
+
+    def helper_consts(h):
+        if h.path not in hc_cache:
+            hc_cache[h.path] = (X.promoted_ranges(h, rcv), X.promoted_enum_consts(h, "minicbor::data::Type"))
+        return hc_cache[h.path]
+
+    def outcome(rows, mk=None, depth=2):
+        """variants a set of rows can produce; a row that returns the result of a workspace helper (`Self::decode_tagged(d, ctx)`)
+        is replaced by that helper's rows under the same valuation (mk(helper) builds the leaf for the helper)."""
         out = set()
         for p in rows:
+            if p.end == "return" and X.result_class(p.ret) is None and mk is not None and depth > 0:
+                r_ = X.strip(p.ret)
+                h = P.fns.get(r_[1]) if r_[0] == "call" else None
+                if h is not None and h.kind != "Closure":
+                    if h.path not in hp_cache:
+                        hp_cache[h.path] = [q for q in tabulate(h, P, 4096) if not X.is_error_propagation(q)]
+                    out |= outcome(X.rows_for(hp_cache[h.path], mk(h), unevaluable=uneval, is_subject=decoder_tag_subject), mk, depth - 1)
+                    continue
             if p.end == "loop":
                 # a decoding loop (chunk iteration) inside an arm: its continuation decides the outcome
                 continue
@@ -652,8 +692,8 @@ def codec_clauses(P, res, spec):
     for name, idx in sorted(tix.items(), key=lambda kv: kv[1]):
         if name in ("Tag", "Unknown"):
             continue
-        rows = X.rows_for(paths, lambda s: (_ for _ in ()).throw(finite.NotFinite(s)), extra=lambda cond: datatype_cond(cond, idx))
-        got = outcome(rows)
+        rows = X.rows_for(paths, mk_leaf(lambda s_: False, 0, rng, ecs, idx), extra=lambda cond: datatype_cond(cond, idx))
+        got = outcome(rows, lambda h, idx=idx: mk_leaf(lambda s_: False, 0, helper_consts(h)[0], helper_consts(h)[1], idx))
         want = {heads[name]} if name in heads else {"Err"}
         nh += 1
         if got == want:
@@ -665,9 +705,9 @@ def codec_clauses(P, res, spec):
     res.floor("PlutusData::decode heads", nh, 20)
     to_constr, to_bigint = set(), set()
     for t in TAG_DOMAIN:
-        leaf = X.tag_leaf(decoder_tag_subject, t, iana, rng)
+        leaf = mk_leaf(decoder_tag_subject, t, rng, ecs, tix["Tag"])
         rows = X.rows_for(paths, leaf, extra=lambda cond: datatype_cond(cond, tix["Tag"]), unevaluable=uneval, is_subject=decoder_tag_subject)
-        got = outcome(rows)
+        got = outcome(rows, lambda h, t=t: mk_leaf(decoder_tag_subject, t, helper_consts(h)[0], helper_consts(h)[1], tix["Tag"]))
         if got == {"Constr"}:
             to_constr.add(t)
         elif got == {"BigInt"}:
@@ -690,9 +730,9 @@ def codec_clauses(P, res, spec):
     f = one_impl(P, "BigInt", "minicbor::decode::Decode", "decode")
     paths = [p for p in tabulate(f, P, 4096) if p.end == "return" and not X.is_error_propagation(p)]
     dec = {}
-    rng, uneval = X.promoted_ranges(f), set()
+    rng, ecs, uneval = X.promoted_ranges(f, rcv), X.promoted_enum_consts(f, "minicbor::data::Type"), set()
     for t in TAG_DOMAIN[:64]:
-        leaf = X.tag_leaf(decoder_tag_subject, t, iana, rng)
+        leaf = mk_leaf(decoder_tag_subject, t, rng, ecs, tix["Tag"])
         rows = X.rows_for(paths, leaf, extra=lambda cond: datatype_cond(cond, tix["Tag"]), unevaluable=uneval, is_subject=decoder_tag_subject)
         for p in rows:
             rc = X.result_class(p.ret)
@@ -701,7 +741,7 @@ def codec_clauses(P, res, spec):
     for name, idx in sorted(tix.items(), key=lambda kv: kv[1]):
         if name in ("Tag", "Unknown"):
             continue
-        rows = X.rows_for(paths, lambda s: (_ for _ in ()).throw(finite.NotFinite(s)), extra=lambda cond: datatype_cond(cond, idx))
+        rows = X.rows_for(paths, mk_leaf(lambda s_: False, 0, rng, ecs, idx), extra=lambda cond: datatype_cond(cond, idx))
         got = set()
         for p in rows:
             rc = X.result_class(p.ret)
@@ -750,6 +790,134 @@ def codec_clauses(P, res, spec):
     bounded_bytes(P, res, spec, is_enc)
 
 
+APPEND = re.compile(r"(Vec::extend_from_slice|Extend::extend|Vec::append|Vec::push)$")
+ITER_EACH = re.compile(r"Iterator::(try_for_each|for_each)$")
+ITER_FOLD = re.compile(r"Iterator::(try_fold|fold)$")
+
+
+def _enc_param(g):
+    """index of the parameter that is the minicbor Encoder (by type)"""
+    for i in range(1, g.argc + 1):
+        if "minicbor::encode::encoder::Encoder<" in g.local_ty(i) or "minicbor::Encoder<" in g.local_ty(i):
+            return i
+    return None
+
+
+def _closure_writes_bytes(P, cl):
+    """closure passed to (try_)for_each: writes exactly `bytes(item)` on a captured encoder"""
+    cl = X.strip(cl)
+    if cl[0] != "agg" or cl[1] != "closure":
+        return False
+    k = P.fns.get(cl[2])
+    if k is None:
+        return False
+    ok = False
+    for q in tabulate(k, P, 64):
+        if q.end != "return" or X.is_error_propagation(q):
+            continue
+        em = [(strip_generics(c[0]), c[1]) for c in q.calls if re.search(r"minicbor::encode::encoder::Encoder::\w+$", strip_generics(c[0]))]
+        if len(em) == 1 and em[0][0].endswith("Encoder::bytes") and X.roots(em[0][1][0]) == {1} and X.roots(em[0][1][1]) == {2}:
+            ok = True
+        else:
+            return False
+    return ok
+
+
+def flat_emissions(P, g, p, is_enc, depth=2):
+    """Names of the items written to the encoder along path p of g; a workspace helper that receives the encoder is replaced by the
+    emissions of its successful return path; `iter.try_for_each(|c| e.bytes(c))` counts as `bytes*`."""
+    out = []
+    for callee, args, bb in p.calls:
+        n = strip_generics(callee)
+        if args and is_enc(args[0]) and re.search(r"minicbor::encode::encoder::Encoder::\w+$", n):
+            out.append(n.split("::")[-1])
+            continue
+        if ITER_EACH.search(n) and len(args) == 2 and _closure_writes_bytes(P, args[1]):
+            out.append("bytes*")
+            continue
+        h = P.fns.get(callee)
+        if h is not None and depth > 0 and any(is_enc(a) for a in args):
+            ei = _enc_param(h)
+            if ei is None:
+                out.append("?" + n.split("::")[-1])
+                continue
+            sub_is_enc = lambda s_, ei=ei: X.strip(s_)[0] == "param" and X.strip(s_)[1] == ei
+            seqs = {tuple(flat_emissions(P, h, q, sub_is_enc, depth - 1)) for q in tabulate(h, P, 512) if q.end == "return" and not X.is_error_propagation(q)}
+            if len(seqs) == 1:
+                out += list(seqs.pop())
+            else:
+                out.append("?" + n.split("::")[-1])
+    return out
+
+
+def chunk_sources(P, g, is_enc, bytes_ok, chunk):
+    """[(ok, why)] for every place in g where chunk items are written to the encoder: an explicit loop or a (try_)for_each closure."""
+    found = []
+
+    def from_chunks(term):
+        src = [sub for sub in sym_walk(term) if sub[0] == "call" and re.search(r"core::slice::(chunks|chunks_exact|rchunks|rchunks_exact)$", strip_generics(sub[1]))]
+        if not src:
+            return None
+        c = src[0]
+        if not strip_generics(c[1]).endswith("core::slice::chunks"):
+            return False, "%s drops or reorders bytes" % strip_generics(c[1]).split("::")[-1]
+        size = X.strip(c[2][1])
+        if size[0] != "const" or int(size[1]) != chunk:
+            return False, "chunk size is %s, Plutus uses %d" % (sym_str(size, 40), chunk)
+        if not bytes_ok(c[2][0]):
+            return False, "chunks are not taken from the byte string being encoded"
+        return True, "items of chunks(bytes, %d)" % chunk
+
+    def from_split(term):
+        # `let (chunk, rest) = remaining.split_at(remaining.len().min(64)); ...; remaining = rest`
+        sp = [sub for sub in sym_walk(term) if sub[0] == "call" and strip_generics(sub[1]).endswith("core::slice::split_at")]
+        if not sp:
+            return None
+        c = sp[0]
+        t = X.strip(term)
+        if not (t[0] == "field" and str(t[2]) == "0"):
+            return False, "the item written is not the first part of split_at"
+        mid = X.strip(c[2][1])
+        ok_mid = False
+        if mid[0] == "call" and re.search(r"core::cmp::Ord::min$|::min$", strip_generics(mid[1])) and len(mid[2]) == 2:
+            parts = [X.strip(a) for a in mid[2]]
+            consts = [a for a in parts if a[0] == "const"]
+            lens = [a for a in parts if a[0] == "call" and re.search(r"::len$", strip_generics(a[1])) and X.norm(X.buffer_of(a[2][0])) == X.norm(X.buffer_of(c[2][0]))]
+            ok_mid = len(consts) == 1 and int(consts[0][1]) == chunk and len(lens) == 1
+        if not ok_mid:
+            return False, "split point is not min(remaining.len(), %d)" % chunk
+        # the loop variable is re-assigned the second part
+        rem = ("?",)
+        for bi_, t_ in g.calls():
+            if flow.callee_name(t_).endswith("core::slice::split_at") and t_["args"]:
+                rem = X.strip(X.buffer_of(g.sym_operand(t_["args"][0])))      # the loop variable: a re-assigned local
+        reassigned = False
+        if rem[0] == "local":
+            for bi, si, st in g.statements():
+                if st[0] == "a" and isinstance(st[1], int) and st[1] == rem[1]:
+                    v = g.sym_rvalue(st[2], 40)
+                    vs = X.strip(v)
+                    if vs[0] == "field" and str(vs[2]) == "1" and X.strip(vs[1])[0] == "call" and strip_generics(X.strip(vs[1])[1]).endswith("core::slice::split_at"):
+                        reassigned = True
+        if not reassigned:
+            return False, "the remaining bytes are not advanced to the second part of split_at"
+        return True, "split_at(remaining, min(len, %d)) with remaining = rest" % chunk
+    paths = tabulate(g, P, 2048)
+    for p in paths:
+        if p.end == "loop":
+            for callee, args, bb in p.calls:
+                n = strip_generics(callee)
+                if n.endswith("Encoder::bytes") and args and is_enc(args[0]):
+                    r = from_chunks(args[1]) or from_split(args[1])
+                    found.append(r if r is not None else (False, "the item written in the loop is not a chunk of the byte string (chunks(..) item or split_at part)"))
+        for callee, args, bb in p.calls:
+            n = strip_generics(callee)
+            if ITER_EACH.search(n) and len(args) == 2 and _closure_writes_bytes(P, args[1]):
+                r = from_chunks(args[0])
+                found.append(r if r is not None else (False, "the iterator consumed by for_each is not chunks(bytes, %d)" % chunk))
+    return found
+
+
 def bounded_bytes(P, res, spec, is_enc):
     chunk = spec["bytes_chunk"]
     f = one_impl(P, "BoundedBytes", "minicbor::encode::Encode", "encode")
@@ -759,7 +927,6 @@ def bounded_bytes(P, res, spec, is_enc):
         s = X.strip(s)
         return s[0] == "call" and re.search(r"::len$", strip_generics(s[1])) is not None and X.roots(s) == {1}
     bad = []
-    forms = {}
     uneval = set()
     for n in list(range(0, 200)) + [255, 256, 1000, 65536]:
         def leaf(s, n=n):
@@ -769,20 +936,19 @@ def bounded_bytes(P, res, spec, is_enc):
         rows = [p for p in X.rows_for(allp, leaf, unevaluable=uneval, is_subject=is_len) if not X.is_error_propagation(p)]
         kinds = set()
         for p in rows:
-            em = [e[0].split("::")[-1] for e in X.emissions(p, is_enc)]
+            em = flat_emissions(P, f, p, is_enc)
             if p.end == "return":
                 if em == ["bytes"]:
                     kinds.add("definite")
-                elif em and em[0] == "begin_bytes" and em[-1] == "end" and all(x == "bytes" for x in em[1:-1]):
+                elif len(em) >= 2 and em[0] == "begin_bytes" and em[-1] == "end" and all(x in ("bytes", "bytes*") for x in em[1:-1]):
                     kinds.add("indefinite")
                 else:
                     kinds.add("other:" + ",".join(em))
             elif p.end == "loop":
-                if not (em and em[0] == "begin_bytes" and all(x == "bytes" for x in em[1:])):
+                if not (em and em[0] == "begin_bytes" and all(x in ("bytes", "bytes*") for x in em[1:])):
                     kinds.add("other-loop:" + ",".join(em))
             else:
                 kinds.add("diverge")
-        forms[n] = kinds
         want = {"definite"} if n <= chunk else {"indefinite"}
         if kinds != want:
             bad.append((n, sorted(kinds)))
@@ -792,64 +958,77 @@ def bounded_bytes(P, res, spec, is_enc):
                       "string (begin, chunks, end) above" % (bad[0][0], bad[0][1], chunk), where=X.where(f), rule="R-TABLE")
     else:
         res.ok("BoundedBytes::encode:threshold", "R-TABLE", "definite iff len <= %d; longer strings: begin_bytes, bytes*, end (lengths 0..199, 255, 256, 1000, 65536)" % chunk)
-    # chunk size and source: every `bytes` item written inside the loop is an item of chunks(self bytes, 64)
-    loops = [p for p in allp if p.end == "loop"]
-    nchunk, okc = 0, True
-    why = "no chunk loop found"
-    for p in loops:
-        for name, args, bb in X.emissions(p, is_enc):
-            if not name.endswith("Encoder::bytes"):
-                continue
-            nchunk += 1
-            src = [sub for sub in sym_walk(args[1]) if sub[0] == "call" and re.search(r"core::slice::(chunks|chunks_exact|rchunks)$", strip_generics(sub[1]))]
-            if not src:
-                okc, why = False, "the item written in the loop is not an item of a chunks() iterator over the bytes"
-                continue
-            c = src[0]
-            if not strip_generics(c[1]).endswith("core::slice::chunks"):
-                okc, why = False, "%s drops or reorders bytes" % strip_generics(c[1]).split("::")[-1]
-            size = X.strip(c[2][1])
-            if size[0] != "const" or int(size[1]) != chunk:
-                okc, why = False, "chunk size is %s, Plutus uses %d" % (sym_str(size, 40), chunk)
-            if X.roots(c[2][0]) != {1}:
-                okc, why = False, "chunks are not taken from self"
-    if nchunk and okc:
-        res.ok("BoundedBytes::encode:chunks", "R-PROV", "loop writes items of chunks(self, %d)" % chunk)
+    # chunk size and source, in the encoder itself and in helpers it hands the encoder to
+    found = chunk_sources(P, f, is_enc, lambda t: X.roots(t) == {1}, chunk)
+    for bi, t in f.calls():
+        h = P.fns.get(t.get("f") or "")
+        if h is None or h.kind == "Closure":
+            continue
+        args = [f.sym_operand(a) for a in t["args"]]
+        if not any(is_enc(a) for a in args):
+            continue
+        ei = _enc_param(h)
+        if ei is None:
+            continue
+        self_args = {i + 1 for i, a in enumerate(args) if X.roots(a) == {1}}      # helper params that carry (parts of) self
+        found += chunk_sources(P, h, lambda s_, ei=ei: X.strip(s_)[0] == "param" and X.strip(s_)[1] == ei,
+                               lambda t_, sa=self_args: bool(X.roots(t_)) and X.roots(t_) <= sa, chunk)
+    if found and all(ok for ok, _ in found):
+        res.ok("BoundedBytes::encode:chunks", "R-PROV", "; ".join(sorted({w for _, w in found})))
     else:
-        res.violation("BoundedBytes::encode:chunks", "chunked encoding: %s" % why, where=X.where(f), rule="R-PROV")
+        res.violation("BoundedBytes::encode:chunks", "chunked encoding: %s" % (next((w for ok, w in found if not ok), "no chunk loop found")), where=X.where(f), rule="R-PROV")
 
-    # decoders: every function that builds a BoundedBytes from bytes_iter appends the items to the returned buffer
+    # decoders: every function of the module that reads bytes_iter appends the items, in iteration order, to the buffer it returns
     nd = 0
-    for g in [one_impl(P, "BoundedBytes", "minicbor::decode::Decode", "decode"), one_impl(P, "PlutusData", "minicbor::decode::Decode", "decode")]:
-        paths = tabulate(g, P, 8192)
-        uses_iter = [p for p in paths if any(strip_generics(c[0]).endswith("Decoder::bytes_iter") for c in p.calls)]
-        if not uses_iter:
+    readers = [g for g in P.by_crate.get("pallas_primitives", []) if g.kind != "Closure" and g.path.startswith(PD.rstrip(":")) or
+               (g.kind != "Closure" and PD.rstrip(":") in g.path)]
+    for g in readers:
+        if not any(flow.callee_name(t).endswith("Decoder::bytes_iter") for _, t in g.calls()):
             continue
         nd += 1
-        appended, bufs = False, set()
-        for p in uses_iter:
-            if p.end != "loop":
-                continue
+        paths = tabulate(g, P, 8192)
+        appended, built, bad_order = False, False, False
+        bufs = set()
+        for p in paths:
             for callee, args, bb in p.calls:
                 n = strip_generics(callee)
-                if re.search(r"(Vec::extend_from_slice|Extend::extend|Vec::append|Vec::push)$", n) and len(args) == 2 and X.mentions_call(args[1], r"Decoder::bytes_iter$"):
+                if p.end == "loop" and APPEND.search(n) and len(args) == 2 and X.mentions_call(args[1], r"Decoder::bytes_iter$"):
                     appended = True
                     bufs.add(X.norm(X.strip(args[0])))
                 elif re.search(r"Vec::(insert|splice)$", n) and X.mentions_call(args[-1], r"Decoder::bytes_iter$"):
-                    bufs.add(("bad",))
-        built = False
-        for p in uses_iter:
-            if p.end == "return" and not X.is_error_propagation(p):
-                rc = X.result_class(p.ret)
-                if rc and rc[0] == "ok" and any(X.norm(sub) in bufs for sub in sym_walk(p.ret)):
-                    built = True
-        key = "%s:chunks-appended" % ("BoundedBytes::decode" if "BoundedBytes" in g.path.split(" as ")[0] else "PlutusData::decode")
-        if appended and built and ("bad",) not in bufs:
+                    bad_order = True
+                elif ITER_FOLD.search(n) and len(args) == 3 and X.mentions_call(args[0], r"Decoder::bytes_iter$"):
+                    # bytes_iter()?.try_fold(Vec::new(), |mut buf, chunk| { buf.extend_from_slice(chunk?); Ok(buf) })
+                    cl = X.strip(args[2])
+                    k = P.fns.get(cl[2]) if cl[0] == "agg" and cl[1] == "closure" else None
+                    if k is not None:
+                        good = False
+                        for q in tabulate(k, P, 64):
+                            if q.end != "return" or X.is_error_propagation(q):
+                                continue
+                            app = [c for c in q.calls if APPEND.search(strip_generics(c[0])) and X.roots(c[1][0]) == {2} and X.roots(c[1][1]) == {3}]
+                            good = bool(app) and X.roots(q.ret) == {2}
+                            if any(re.search(r"Vec::(insert|splice)$", strip_generics(c[0])) for c in q.calls):
+                                bad_order = True
+                        if good:
+                            appended = True
+                            bufs.add(X.norm(("call", callee, tuple(args), bb)))
+        for p in paths:
+            if p.end == "return" and not X.is_error_propagation(p) and any(X.norm(sub) in bufs for sub in sym_walk(p.ret)):
+                built = True
+        key = "%s:chunks-appended" % strip_generics(g.path).replace(PD, "").replace(" as minicbor::decode::Decode", "")
+        if appended and built and not bad_order:
             res.ok(key, "R-PROV", "bytes_iter items are appended to the buffer the result is built from")
         else:
             res.violation(key, "the chunks yielded by bytes_iter are not appended in iteration order to the buffer the decoded byte string is built from",
                           where=X.where(g), rule="R-PROV")
     res.floor("decoders reading chunked byte strings", nd, 1)
+    bd = one_impl(P, "BoundedBytes", "minicbor::decode::Decode", "decode")
+    if X.fn_reaches(P, bd, re.compile(r"Decoder::bytes_iter$")):
+        res.ok("BoundedBytes::decode:reads-chunks", "R-MPT", "BoundedBytes::decode reads through bytes_iter (definite and indefinite strings)")
+    else:
+        res.violation("BoundedBytes::decode:reads-chunks", "BoundedBytes::decode no longer reads through Decoder::bytes_iter: chunked (indefinite) byte strings are not re-assembled",
+                      where=X.where(bd), rule="R-MPT")
 
 
 def run(tier):
@@ -858,6 +1037,13 @@ def run(tier):
     spec = json.load(open(os.path.join(VERIF, "spec", "plutus_data.json")))
     order_clauses(P, res)
     codec_clauses(P, res, spec)
+    # a table that could not be evaluated is reported once (":unanalysable"); comparisons derived from its garbage rows are dropped
+    und = getattr(res, "undecidable", set())
+    if und:
+        def derived(k):
+            return any(k.startswith(p_ + ":") and not k.endswith(":unanalysable") for p_ in und)
+        res.violations = [v for v in res.violations if not derived(v["key"])]
+        res.obligations = [o for o in res.obligations if not derived(o["key"])]
     res.assumptions += ["std Ord for Vec/slices/tuples/integers is a lexicographic total order consistent with Eq",
                         "minicbor 0.26 `data::Type` declaration order and IanaTag::{PosBignum,NegBignum} = tags 2,3 (spec/plutus_data.json)",
                         "minicbor Decoder::bytes_iter yields the chunks of a definite or indefinite byte string in order"]
